@@ -297,6 +297,11 @@ def monitor(cfg, group, items, results):
         if exp is not None:
             if not any(f[0] == "c" and f[1] >= 400 for f in r["frames"]):
                 yield ("error-not-silence", k, "%s request answered without an error code: %s" % (exp, r["frames"]))
+        if single and kind != "note" and r["id"] != "" and replies and all(unsolicited(f) for f in replies):
+            # the only thing the requester was sent is an id-less eviction notice (e.g. {del what=user} of the own
+            # account when the write loop takes the stop payload before the queued {ctrl 200}): the handler's
+            # answer does not echo the request id
+            yield ("id-echo-" + kind, k, "request answered only by an eviction notice that does not carry the request id %r: %s" % (r["id"], replies))
         if single and kind != "note" and r["id"] != "":
             for f in replies:
                 if f[2] != r["id"] and not unsolicited(f):
@@ -458,7 +463,7 @@ def drafty_cases(ctx):
     for d in G.DRAFTY + G.ANY:
         cases.append(d)
     texts = ["", "a", "hello world", "a\U0001F600b́c", "́́", "\U0001F468‍\U0001F469‍\U0001F467", "x" * 300, "\u0000", "\ud83d"]
-    offs = [0, 1, 2, -1, -100, 5, 299, 300, 301, 2 ** 31 - 1, 2 ** 31, 2 ** 63 - 1, -2 ** 63, 1.5, "1", None]
+    offs = [0, 1, 2, -1, -100, 5, 299, 300, 301, 2 ** 31 - 1, 2 ** 31, 2 ** 62, 2 ** 62 + 1, 2 ** 63 - 2, 2 ** 63 - 1, -2 ** 63, -2 ** 62, 1.5, "1", None]
     tps = ["ST", "EM", "DL", "CO", "BR", "LN", "MN", "HT", "HD", "IM", "EX", "FM", "RW", "BN", "VC", "VD", "QQ", "", "junk", 5, None]
     for _ in range(600 if ctx.tier == "quick" else 20000):
         txt = G.pick(rng, texts)
@@ -490,6 +495,24 @@ def drafty_cases(ctx):
         raw = json.dumps(d, ensure_ascii=False).encode("utf-8", "surrogatepass")
         for ln in (0, 1, 7, 80, -1, 2 ** 31):
             out.append("D %d %s" % (ln, raw.hex() or "-"))
+    # structured stream: an otherwise valid document with ONE span whose (at, len) is taken from the full
+    # cross product of boundary values (a document with several bad spans is rejected at the first one, so
+    # the random stream above rarely reaches the code behind the range checks)
+    ints = [v for v in offs if isinstance(v, int)]
+    for txt in ("hello", ""):
+        for tp in ("ST", "BR", None):
+            for at in ints:
+                for ln_ in ints:
+                    f = {"at": at, "len": ln_}
+                    d = {"txt": txt, "fmt": [{"at": 0, "len": len(txt), "tp": "EM"}, f] if txt else [f]}
+                    if tp is None:
+                        f["key"] = 0
+                        d["ent"] = [{"tp": "MN", "data": {"val": "usrX"}}]
+                    else:
+                        f["tp"] = tp
+                    raw = json.dumps(d).encode()
+                    for pl in (0, 7):
+                        out.append("D %d %s" % (pl, raw.hex()))
     return out
 
 
